@@ -372,5 +372,5 @@ def describe(case):
 
 def parts(tier):
     q = tier == "quick"
-    return [Part("history", oracle_history, strategy=history_case(), n=120 if q else 16000, describe=describe),
+    return [Part("history", oracle_history, strategy=history_case(), n=160 if q else 16000, describe=describe),
             Part("crash", oracle_crash, strategy=tree(), n=40 if q else 4800, describe=describe)]
